@@ -762,7 +762,7 @@ func (c *compiler) createListConcats(listType *ddpIrListType, declarationOnly bo
 			// ddp_deep_copy_scalar(&ret->arr[0], scal1);
 			// ddp_deep_copy_scalar(&ret->arr[0], scal1);
 			c.cbb.NewCall(listType.elementType.DeepCopyFunc(), retArr0Ptr, scal1)
-			c.cbb.NewCall(listType.elementType.DeepCopyFunc(), retArr0Ptr, scal2)
+			c.cbb.NewCall(listType.elementType.DeepCopyFunc(), retArr1Ptr, scal2)
 		}
 
 		return finish(concScalScal)
